@@ -394,12 +394,18 @@ def jacobi_sum_clenshaw_der(s, alpha, beta, x, j=1, alphas=None):
     # j = derivative
     # n = order
     # inner loop over n, outer loop over j
+    if len(s) == 1:
+        # Clenshaw's recurrence is seeded from the two highest orders;
+        # a lone P0 term is the same sum as [s0, 0]
+        s = [s[0], 0]
+
     alphas = _initialize_alphas(s, x, None, j=j)
     M = len(s) - 1
     # seed the first sweep of alpha, for j=0, by side effect
     jacobi_sum_clenshaw(s, alpha, beta, x, alphas=alphas[0])
-    # now loop over increasing j
-    for jj in range(1, j+1):
+    # now loop over increasing j; derivatives of order > M of a degree M
+    # polynomial are zero, as alphas was initialized
+    for jj in range(1, min(j, M)+1):
         # more twisted notation - follow Forbes' paper, but our
         # idea of b and a are swapped
         a, *_ = recurrence_abc(M-jj, alpha, beta)
